@@ -237,7 +237,7 @@ pub fn bases_mmap(u: usize) -> Vec<u64> {
 
 pub fn run(tier: Tier, replay: Option<String>) -> i32 {
     let ctx = crate::new_ctx("C02", tier, "exploration", &replay);
-    ctx.set_rule("every set of disjoint non-empty regions over U one-byte cells (adjacent distinguished from merged) x bases {0, 0x1000, 2^32-3, 2^63-3, top of the address space} x every query method at every address of [base-2, base+U+2) plus {0,1,2^63,2^64-2,2^64-1} x every length/offset 0..=U+2 plus values around isize::MAX/usize::MAX; for GuestMemoryMmap (real mmaps; built, rotating with the layout, by one constructor call, by insertions from the back, or with extra regions that are removed again) and for a linear-search implementation that inherits all default methods (regions may end at 2^64-1); huge layouts (2^20..2^62 bytes, 1-byte and 2^61-byte holes) through raw regions, probed at region starts/ends +-1. Oracle: sorted interval list. A case is one (layout, address[, length]) query group; non-trivial = length >= 1 or an address-level query; distinct by construction.");
+    ctx.set_rule("the map without regions (fresh, and emptied by removals) and every set of disjoint non-empty regions over U one-byte cells (adjacent distinguished from merged) x bases {0, 0x1000, 2^32-3, 2^63-3, top of the address space} x every query method at every address of [base-2, base+U+2) plus {0,1,2^63,2^64-2,2^64-1} x every length/offset 0..=U+2 plus values around isize::MAX/usize::MAX; for GuestMemoryMmap (real mmaps; built, rotating with the layout, by one constructor call, by insertions from the back, or with extra regions that are removed again) and for a linear-search implementation that inherits all default methods (regions may end at 2^64-1); huge layouts (2^20..2^62 bytes, 1-byte and 2^61-byte holes) through raw regions, probed at region starts/ends +-1. Oracle: sorted interval list. A case is one (layout, address[, length]) query group; non-trivial = length >= 1 or an address-level query; distinct by construction.");
     ctx.assume("ranges of length 0 are executed but not judged (the statement quantifies over the bytes of the range)");
     let u = if tier.thorough() { 12 } else { 7 };
     let cells = cell_layouts(u);
@@ -304,6 +304,26 @@ pub fn run(tier: Tier, replay: Option<String>) -> i32 {
             check_queries(&ctx, "mock", &m, &l, &addrs, &lens, true);
             nlay.fetch_add(1, std::sync::atomic::Ordering::Relaxed);
         }
+    }
+    // no region at all: a fresh GuestMemoryMmap::new(), and a map emptied by removing its regions
+    {
+        use vm_memory::{GuestAddress, GuestMemoryMmap};
+        let l = Layout { regs: vec![] };
+        let addrs: Vec<u64> = vec![0, 1, 0x1000, 0x1005, 1 << 32, 1 << 63, u64::MAX - 1, u64::MAX];
+        let lens2: Vec<usize> = vec![0, 1, 2, 4096, usize::MAX];
+        let fresh = GuestMemoryMmap::<()>::new();
+        check_queries(&ctx, "mmap", &fresh, &l, &addrs, &lens2, true);
+        if let Ok(m) = GuestMemoryMmap::<()>::from_ranges(&[(GuestAddress(0x1000), 5), (GuestAddress(0x1005), 1), (GuestAddress(1 << 32), 4096)]) {
+            let emptied = m
+                .remove_region(GuestAddress(0x1005), 1)
+                .and_then(|(m, _)| m.remove_region(GuestAddress(1 << 32), 4096))
+                .and_then(|(m, _)| m.remove_region(GuestAddress(0x1000), 5));
+            match emptied {
+                Ok((m, _)) => check_queries(&ctx, "mmap", &m, &l, &addrs, &lens2, true),
+                Err(e) => ctx.fail("C02/map-built-by-updates/valid-update-refused", &format!("removing every region one by one: {:?}", e), json!({"layout": "emptied"})),
+            }
+        }
+        nlay.fetch_add(2, std::sync::atomic::Ordering::Relaxed);
     }
     // layouts with many regions (lookup strategies may change with the region count)
     for n in [9usize, 10, 12, 16, 17, 32, 33, 64, 65] {
